@@ -105,7 +105,8 @@ def run(ctx):
     # ---- R3.2
     ce = fx.body("clap_builder::parser::matches::matched_arg::MatchedArg::check_explicit")
     anyc = ce.calls_to(r"Iterator::any$")
-    oka = len(anyc) == 1 and re.match(r"^raw_vals_flatten\(self\)$", expr(ce, anyc[0].args[0])) is not None
+    # any(..), find(..).is_some() or a loop with `return true` on a match: all existential over every value
+    oka = len(exists_forms(fx, ce, r"^raw_vals_flatten\(self\)$")) == 1 and len(anyc) <= 1
     res.check(oka, "R3.2", "equals-over-all-values", ce.where(), "Equals predicate = raw_vals_flatten().any(..): every value of every occurrence",
               "check_explicit(Equals) no longer looks at all values of all occurrences: %s" % ([expr(ce, c.args[0]) for c in anyc]))
     rf = fx.body("clap_builder::parser::matches::matched_arg::MatchedArg::raw_vals_flatten")
